@@ -85,8 +85,9 @@ def run_case(case):
         def new_sampler():
             fn = labelled.make_fn(spec)
             r = x.Runner(fn, ("out", "E"), constants=consts or None)
-            dc = {"a": list(A),
-                  "b": scripted(Bv, "b") if case["b_callable"] else list(Bv)}
+            # ("n" before "k": the sower must not reorder them)
+            dc = {"n": list(A),
+                  "k": scripted(Bv, "b") if case["b_callable"] else list(Bv)}
             return x.Sampler(r, data_name=data_name, default_combos=dc,
                              engine=engine)
 
@@ -124,7 +125,7 @@ def run_case(case):
                 # choices that are NOT among the defaults, so that a later
                 # run without override can be told apart
                 allowed_a = sorted({1000 + i for i in op["override_a"]})
-                override = {"a": allowed_a}
+                override = {"n": allowed_a}
             del GEN_LOG[:]
             models.LOG.clear()
             if o == "sample":
@@ -168,14 +169,14 @@ def run_case(case):
             bs = []
             for i in range(len(new)):
                 r = new.iloc[i]
-                a, b = models.plain(r["a"]), models.plain(r["b"])
+                a, b = models.plain(r["n"]), models.plain(r["k"])
                 bs.append(b)
                 require(a in allowed_a, "argument-outside-choices",
-                        f"{tag}: a={a!r} not in {allowed_a}")
+                        f"{tag}: n={a!r} not in {allowed_a}")
                 if not case["b_callable"]:
                     require(b in Bv, "argument-outside-choices",
-                            f"{tag}: b={b!r} not in {Bv}")
-                kwargs = {"a": a, "b": b, **consts}
+                            f"{tag}: k={b!r} not in {Bv}")
+                kwargs = {"n": a, "k": b, **consts}
                 for j, nm in enumerate(("out", "E")):
                     want = labelled.var_value(kwargs, j, ())
                     require(float(r[nm]) == want, "row-mispaired",
@@ -219,7 +220,7 @@ def run_n0(case):
     with core.scratch("xv-c15z-") as root:
         r = x.Runner(labelled.make_fn(spec), ("out", "E"))
         s = x.Sampler(r, data_name=os.path.join(root, "s.pkl"),
-                      default_combos={"a": [1, 2], "b": ["p"]})
+                      default_combos={"n": [1, 2], "k": ["p"]})
         s.sample_combos(2, verbosity=0)
         models.LOG.clear()
         with under_test("sample_combos(0)"):
